@@ -168,15 +168,30 @@ def shards(items, n):
 
 
 def run_parallel(cmds, timeout=3600):
-    """Run several commands concurrently; returns list of (rc, out, err) in order."""
-    procs = [subprocess.Popen(c, env=ENV, stdout=subprocess.PIPE, stderr=subprocess.PIPE, text=True) for c in cmds]
+    """Run several commands concurrently; returns list of (rc, out, err) in order.  Outputs go to
+    temporary files: with pipes a process whose pipe is full would block until its turn to be read."""
+    import tempfile, time
+    tdir = os.path.join(CACHE, "tmp")
+    os.makedirs(tdir, exist_ok=True)
+    procs = []
+    for c in cmds:
+        fo = tempfile.TemporaryFile(mode="w+", dir=tdir)
+        fe = tempfile.TemporaryFile(mode="w+", dir=tdir)
+        procs.append((subprocess.Popen(c, env=ENV, stdout=fo, stderr=fe, text=True), fo, fe))
+    deadline = time.time() + timeout
     res = []
-    for p in procs:
+    for p, fo, fe in procs:
         try:
-            out, err = p.communicate(timeout=timeout)
-            res.append((p.returncode, out, err))
+            p.wait(timeout=max(1, deadline - time.time()))
+            rc, timed = p.returncode, False
         except subprocess.TimeoutExpired:
             p.kill()
-            out, err = p.communicate()
-            res.append((124, out, "TIMEOUT"))
+            p.wait()
+            rc, timed = 124, True
+        fo.seek(0)
+        fe.seek(0)
+        out, err = fo.read(), fe.read()
+        fo.close()
+        fe.close()
+        res.append((rc, out, "TIMEOUT" if timed else err))
     return res
